@@ -4,9 +4,9 @@ def obligations(tier):
     to = 2400 if T else 280
     obs = []
     REPP = ["callback_chunkedheader:stub_chunkhdr", "get_body_gotclen:stub_gotclen", "callback_read_toeof:stub_toeof", "callback_read_header:stub_readheader", "findeol:stub_findeol"]
-    SHAPES = [("status13", [13]), ("status13-h4", [13, 4])]
+    SHAPES = [("status13", [13]), ("status13-h4", [13, 4]), ("status13-clen17", [13, 17])]	# the Content-Length shape costs ~490 s on an idle machine (kissat) and is in the quick tier because it is the commonest framing
     # the two three-line shapes with both Transfer-Encoding and Content-Length (either order) did not finish in 2400 s on cadical/kissat (thorough run 3): the chunked-over-Content-Length priority is decided only by the C08 memory-safety shapes' framing CHECKs, not here
-    if T: SHAPES += [("status13-clen17", [13, 17]), ("status15-h3-h6", [15, 3, 6]), ("status13-te26", [13, 26]), ("status13-h5-h5-h5", [13, 5, 5, 5]), ("status20-clen19", [20, 19])]
+    if T: SHAPES += [("status15-h3-h6", [15, 3, 6]), ("status13-te26", [13, 26]), ("status13-h5-h5-h5", [13, 5, 5, 5]), ("status20-clen19", [20, 19])]
     for nm_, sh in SHAPES:
         n = sum(sh) + 2 * len(sh) + 2
         obs.append(dict(name="header-decode-exact-" + nm_, harness="../C08/hdr.c", entry="h_header", defs=["N=%d" % n, "EXTRA=2", "EXACT", "SHAPE={%s-1}" % "".join("%d," % x for x in sh)], replace=REPP, unwind=max(n + 8, 20), backends=["cadical", "kissat"], timeout=max(to, 900),
